@@ -163,70 +163,78 @@ def isConstNode {V} : Node V → Bool
   | .const _ => true
   | _ => false
 
+/-- the value of a free parameter (`arguments[prior]`; `KeyError` when absent) -/
+def valOf {V} (args : List (Nat × V)) (id : Nat) : Inst V :=
+  match lookupArg args id with
+  | some v => .num v
+  | none => .missing
+
 mutual
 /-- `instance_for_arguments` (assertions are C03's concern and are not evaluated here) -/
-def inst {V} [Inhabited V] (ops : Ops V) (args : List (Nat × V)) : Node V → Inst V
-  | .prior id => match lookupArg args id with
-      | some v => .num v
-      | none => .missing
+def instW {V} [Inhabited V] (ops : Ops V) (ρ : Nat → Inst V) : Node V → Inst V
+  | .prior id => ρ id
   | .const v => .num v
   | .opaque tag => .opaque tag
   | .model cls ctor attrs =>
-      .obj cls (instModelAttrs ops args ctor attrs)
-  | .coll attrs => .obj "" (instCollAttrs ops args attrs)
+      .obj cls (instModelAttrs ops ρ ctor attrs)
+  | .coll attrs => .obj "" (instCollAttrs ops ρ attrs)
   | .tuple attrs =>
       -- `sorted(prior_tuples + instance_tuples, key=name)`; names are dict keys, hence distinct
-      .tup (sortByName ops.nameLe (instTupleAttrs ops args attrs))
+      .tup (sortByName ops.nameLe (instTupleAttrs ops ρ attrs))
   | .arith op _ l r =>
-      match inst ops args l, inst ops args r with
+      match instW ops ρ l, instW ops ρ r with
       | .num a, .num b => .num (ops.bin op a b)
       | _, _ => .missing
   | .modif op _ x =>
-      match inst ops args x with
+      match instW ops ρ x with
       | .num a => .num (ops.un op a)
       | _ => .missing
-  | .array shape attrs => .arr shape (instArrayEntries ops args attrs)
-/-- `Model._instance_for_arguments`: constructor arguments, then non-constructor attributes
-(priors there are *not* set on the instance; only `Model` children are instantiated) -/
-def instModelAttrs {V} [Inhabited V] (ops : Ops V) (args : List (Nat × V)) (ctor : List String) :
+  | .array shape attrs => .arr shape (instArrayEntries ops ρ attrs)
+/-- `Model._instance_for_arguments`: constructor arguments are instantiated and passed to the
+class; non-constructor attributes that are plain values are set on the result. A prior, model or
+tuple on a non-constructor attribute is passed to the constructor as an unexpected keyword
+(`TypeError` for the classes modelled here): `.missing`. -/
+def instModelAttrs {V} [Inhabited V] (ops : Ops V) (ρ : Nat → Inst V) (ctor : List String) :
     List (String × Node V) → List (String × Inst V)
   | [] => []
   | (k, n) :: rest =>
       if ctor.contains k then
-        (k, inst ops args n) :: instModelAttrs ops args ctor rest
+        (k, instW ops ρ n) :: instModelAttrs ops ρ ctor rest
       else
         match n with
-        | .prior _ => instModelAttrs ops args ctor rest
-        | .model _ _ _ => (k, inst ops args n) :: instModelAttrs ops args ctor rest
-        | .const v => (k, .num v) :: instModelAttrs ops args ctor rest
-        | .opaque tag => (k, .opaque tag) :: instModelAttrs ops args ctor rest
-        | _ => (k, .raw) :: instModelAttrs ops args ctor rest
+        | .const v => (k, .num v) :: instModelAttrs ops ρ ctor rest
+        | .opaque tag => (k, .opaque tag) :: instModelAttrs ops ρ ctor rest
+        | _ => (k, .missing) :: instModelAttrs ops ρ ctor rest
 /-- `Collection._instance_for_arguments` -/
-def instCollAttrs {V} [Inhabited V] (ops : Ops V) (args : List (Nat × V)) :
+def instCollAttrs {V} [Inhabited V] (ops : Ops V) (ρ : Nat → Inst V) :
     List (String × Node V) → List (String × Inst V)
   | [] => []
   | (k, n) :: rest =>
       match n with
-      | .tuple _ => (k, .raw) :: instCollAttrs ops args rest
-      | _ => (k, inst ops args n) :: instCollAttrs ops args rest
+      | .tuple _ => (k, .raw) :: instCollAttrs ops ρ rest
+      | _ => (k, instW ops ρ n) :: instCollAttrs ops ρ rest
 /-- members of a `TuplePrior`: priors and float constants (anything else is ignored) -/
-def instTupleAttrs {V} [Inhabited V] (ops : Ops V) (args : List (Nat × V)) :
+def instTupleAttrs {V} [Inhabited V] (ops : Ops V) (ρ : Nat → Inst V) :
     List (String × Node V) → List (String × Inst V)
   | [] => []
   | (k, n) :: rest =>
       match n with
-      | .prior _ => (k, inst ops args n) :: instTupleAttrs ops args rest
-      | .const v => (k, .num v) :: instTupleAttrs ops args rest
-      | _ => instTupleAttrs ops args rest
+      | .prior _ => (k, instW ops ρ n) :: instTupleAttrs ops ρ rest
+      | .const v => (k, .num v) :: instTupleAttrs ops ρ rest
+      | _ => instTupleAttrs ops ρ rest
 /-- `Array._instance_for_arguments`: every entry in index order -/
-def instArrayEntries {V} [Inhabited V] (ops : Ops V) (args : List (Nat × V)) :
+def instArrayEntries {V} [Inhabited V] (ops : Ops V) (ρ : Nat → Inst V) :
     List (String × Node V) → List (Inst V)
   | [] => []
   | (_, n) :: rest =>
       match n with
-      | .opaque _ => instArrayEntries ops args rest
-      | _ => inst ops args n :: instArrayEntries ops args rest
+      | .opaque _ => instArrayEntries ops ρ rest
+      | _ => instW ops ρ n :: instArrayEntries ops ρ rest
 end
+
+/-- instance for an argument dictionary -/
+def inst {V} [Inhabited V] (ops : Ops V) (args : List (Nat × V)) (t : Node V) : Inst V :=
+  instW ops (valOf args) t
 
 /-- `instance_from_vector` without the gates (C03 adds them) -/
 def instFromVector {V} [Inhabited V] (ops : Ops V) (t : Node V) (v : List V) : Inst V :=
